@@ -31,10 +31,10 @@ var profiles = map[string]Profile{
 	// C11: CopyTo
 	"copy": {"set": 30, "del": 6, "flush": 5, "evict": 4, "reopen": 2, "setcoll": 4, "copyto": 6, "snapshot": 2, "obs": 3, "removecoll": 1},
 	// C19: lazy loading: large values, key-only operations in every cache state
-	"lazy": {"set": 20, "del": 8, "get": 14, "exist": 6, "min": 4, "max": 4, "visit": 12, "len": 3, "totals": 2,
+	"lazy": {"set": 20, "del": 8, "get": 14, "exist": 6, "min": 4, "max": 4, "visit": 12, "len": 3, "totals": 2, "enum": 1,
 		"flush": 8, "evict": 8, "reopen": 6, "obs": 2, "setcoll": 1},
 	// C15: reference counting (no Get/Exist: they do not hand the item out)
-	"refs": {"set": 26, "setrand": 4, "del": 10, "get": 10, "min": 3, "max": 3, "visit": 8, "flush": 6, "evict": 8,
+	"refs": {"set": 26, "setrand": 4, "del": 10, "get": 10, "min": 3, "max": 3, "visit": 8, "flush": 6, "evict": 8, "exist": 4, "len": 2, "enum": 2,
 		"reopen": 3, "snapshot": 3, "snapread": 4, "snapclose": 3, "setcoll": 3, "removecoll": 2, "obs": 4},
 }
 
@@ -129,6 +129,8 @@ func (r *seqRun) readOp(h *StoreH, kind string) bool {
 		return w.Totals(h, name, nil)
 	case "len":
 		return w.LenEv(h, name, nil)
+	case "enum":
+		return w.EnumEv(h, name, w.rng.Intn(2) == 0)
 	case "visit":
 		K := len(w.U.Keys)
 		tid := w.rng.Intn(K + 2)
@@ -176,7 +178,7 @@ func (r *seqRun) step() bool {
 			return true
 		}
 		return w.Del(m, name, r.anyKey(name), nil)
-	case "get", "exist", "min", "max", "totals", "visit", "len":
+	case "get", "exist", "min", "max", "totals", "visit", "len", "enum":
 		return r.readOp(r.reader(), op)
 	case "snapread":
 		if len(r.snaps) == 0 {
